@@ -1,6 +1,8 @@
-(* C04 — the binder refinement extended to &rest and &key lambda lists: for every lambda list accepted by
-   parse_ll (required / &optional / &rest / &key / &aux sections, any marker spelling) and every argument
-   vector inside the guard, the two-pass binder model produces the outcome the specification prescribes. *)
+(* C04 — the binder refinement for every lambda list accepted by parse_ll (required / &optional / &rest /
+   &key / &allow-other-keys / &aux sections, any marker spelling) and every argument vector inside the guard:
+   the two-pass binder model of the REPAIRED Lambda.Call (repo_fixes C04-1 .. C04-9) produces exactly the
+   outcome the specification prescribes.  The guard excludes only &rest together with &key with arguments
+   left after the positional ones. *)
 From C04 Require Import Model Spec Proofs.
 Open Scope N_scope.
 
@@ -127,18 +129,18 @@ Proof.
 Qed.
 
 (* ---------- pass 1, section by section ---------- *)
-Lemma pass1_vars' xs tl m args b r rs : posmode m ->
-  pass1 (map Vd xs ++ tl) m {| p_args := args; p_b := b; p_rest := r; p_restsym := rs; p_err := None |} =
-  pass1 tl m {| p_args := skipn (length xs) args; p_b := push_all xs args b; p_rest := r; p_restsym := rs; p_err := None |}.
+Lemma pass1_vars' ks al xs tl m args b r rs : posmode m ->
+  pass1 ks al (map Vd xs ++ tl) m {| p_args := args; p_b := b; p_rest := r; p_restsym := rs; p_err := None |} =
+  pass1 ks al tl m {| p_args := skipn (length xs) args; p_b := push_all xs args b; p_rest := r; p_restsym := rs; p_err := None |}.
 Proof.
   intros Hm. rewrite pass1_vars by exact Hm. cbv zeta. destruct (Nat.leb_spec (length args) (length xs)); [|reflexivity].
   symmetry. apply pass1_noargs. cbn. apply skipn_all2. assumption.
 Qed.
 
 (* required and optional parameters take the leading arguments *)
-Lemma pass1_prefix req o tl args :
-  pass1 (map Vd req ++ vsec POptional o ++ tl) MReq (st0 args) =
-  pass1 tl (match o with Some _ => MOpt | None => MReq end)
+Lemma pass1_prefix ks al req o tl args :
+  pass1 ks al (map Vd req ++ vsec POptional o ++ tl) MReq (st0 args) =
+  pass1 ks al tl (match o with Some _ => MOpt | None => MReq end)
     {| p_args := skipn (length req + length (vars o)) args;
        p_b := push_all (vars o) (skipn (length req) args) (push_all req args []);
        p_rest := []; p_restsym := None; p_err := None |}.
@@ -152,70 +154,114 @@ Proof.
   - cbn [length]. rewrite Nat.add_0_r. reflexivity.
 Qed.
 
-Lemma pass1_auxsec o m st : posmode m -> p_err st = None -> pass1 (vsec PAux o) m st = st.
+Lemma pass1_auxsec ks al o m st : posmode m -> p_err st = None -> pass1 ks al (vsec PAux o) m st = st.
 Proof.
   intros Hm He. destruct o as [[df aux]|]; [|reflexivity]. destruct st as [args b r rs e]. cbn in He. subst e.
   destruct args; [reflexivity|]. destruct Hm as [-> | ->]; reflexivity.
 Qed.
-
-Lemma is_later_aux k o : is_later_param k (vsec PAux o) = existsb (fun xd => N.eqb (fst xd) k) (vars o).
+(* &allow-other-keys is skipped by the positional modes *)
+Lemma pass1_allowsec ks al o tl m st : posmode m -> p_err st = None ->
+  pass1 ks al (allowsec o ++ tl) m st = pass1 ks al tl m st.
 Proof.
-  unfold is_later_param. destruct o as [[df aux]|]; [|reflexivity]. cbn [vsec vars existsb Mk' d_name orb].
-  induction aux as [|[x d] aux IH]; cbn; [reflexivity|]. rewrite IH. reflexivity.
+  intros Hm He. destruct o as [df|]; [|reflexivity]. destruct st as [args b r rs e]. cbn in He. subst e. cbn [allowsec app].
+  destruct args; [rewrite !pass1_noargs by reflexivity; reflexivity|]. destruct Hm as [-> | ->]; reflexivity.
 Qed.
 
-Lemma forallb_ext' {A} (f g : A -> bool) l : (forall x, f x = g x) -> forallb f l = forallb g l.
-Proof. intros H. induction l as [|a l IH]; cbn; [reflexivity|]. rewrite H, IH. reflexivity. Qed.
-
-Lemma rest_loop_all later : forall args acc,
-  forallb (fun a => match a with AKw k => negb (is_later_param k later) | _ => true end) args = true ->
-  rest_loop later args acc = (acc ++ args, [], false).
+(* without &key parameters the rest loop collects every remaining argument *)
+Lemma rest_loop_all : forall args acc, rest_loop [] args acc = (acc ++ args, [], false).
 Proof.
-  induction args as [|a args IH]; intros acc H; cbn [rest_loop]; [rewrite app_nil_r; reflexivity|].
-  cbn [forallb] in H. apply andb_true_iff in H as [Ha H].
-  assert (E : rest_loop later args (acc ++ [a]) = (acc ++ a :: args, [], false)) by (rewrite IH by exact H; rewrite <- app_assoc; reflexivity).
-  destruct a as [z|k|]; try exact E. apply negb_true_iff in Ha. rewrite Ha. exact E.
+  induction args as [|a args IH]; intros acc; cbn [rest_loop]; [rewrite app_nil_r; reflexivity|].
+  assert (E : rest_loop [] args (acc ++ [a]) = (acc ++ a :: args, [], false)) by (rewrite IH; rewrite <- app_assoc; reflexivity).
+  destruct a as [z|k|]; exact E.
 Qed.
 
-(* &rest collects every remaining argument (no keyword among them names an &aux parameter) *)
-Lemma pass1_restsec df r dr oa m a2 b : posmode m -> a2 <> [] ->
-  forallb (rest_arg_ok (vars oa)) a2 = true ->
-  pass1 (Mk' PRest df :: Vd (r, dr) :: vsec PAux oa) m {| p_args := a2; p_b := b; p_rest := []; p_restsym := None; p_err := None |} =
+Lemma pass1_restsec al df r dr tl m a2 b : posmode m -> a2 <> [] ->
+  pass1 [] al (Mk' PRest df :: Vd (r, dr) :: tl) m {| p_args := a2; p_b := b; p_rest := []; p_restsym := None; p_err := None |} =
   {| p_args := []; p_b := b; p_rest := a2; p_restsym := Some r; p_err := None |}.
 Proof.
-  intros Hm Hne Hok. destruct a2 as [|a a2]; [congruence|].
-  assert (Hl : rest_loop (vsec PAux oa) (a :: a2) [] = ([] ++ a :: a2, [], false)).
-  { apply rest_loop_all. rewrite (forallb_ext' _ (rest_arg_ok (vars oa))); [exact Hok|].
-    intros [z|k|]; try reflexivity. cbn [rest_arg_ok]. rewrite is_later_aux. reflexivity. }
+  intros Hm Hne. destruct a2 as [|a a2]; [congruence|].
+  pose proof (rest_loop_all (a :: a2) []) as Hl.
   destruct Hm as [-> | ->]; cbn [pass1 p_args p_err Mk' d_name Vd fst p_rest p_restsym p_b]; rewrite Hl; cbn [app length Nat.eqb];
     apply pass1_noargs; reflexivity.
 Qed.
 
-(* &key: the remaining arguments are consumed as keyword/value pairs *)
-Definition keybinds (ps : list (N * arg)) (b : list (N * value)) : list (N * value) :=
-  fold_left (fun acc p => bind acc (fst p) (arg_val (snd p))) ps b.
-Lemma key_loop_pairs fuel : forall args b ps, key_pairs fuel args = Some ps -> key_loop fuel args b = inl (keybinds ps b).
+(* &key: the remaining arguments are consumed as keyword/value pairs, at the marker *)
+Definition kstep (ks : list N) (b : list (N * value)) (p : N * arg) : list (N * value) :=
+  if is_key_param ks (fst p) then match lookup b (fst p) with Some _ => b | None => bind b (fst p) (arg_val (snd p)) end else b.
+Definition keybinds (ks : list N) (ps : list (N * arg)) (b : list (N * value)) : list (N * value) := fold_left (kstep ks) ps b.
+Definition pair_ok (ks : list N) (al : bool) (keyargs : list arg) (p : N * arg) : bool :=
+  is_key_param ks (fst p) || other_key_allowed al keyargs (fst p).
+
+Lemma key_loop_pairs ks al keyargs fuel : forall args b ps, key_pairs fuel args = Some ps ->
+  key_loop fuel ks al keyargs args b = if forallb (pair_ok ks al keyargs) ps then inl (keybinds ks ps b) else inr KBadKey.
 Proof.
   induction fuel as [|fuel IH]; intros args b ps H; cbn in H; [discriminate|]. cbn [key_loop].
   destruct args as [|[z|k|] args]; try discriminate.
   - injection H as <-. reflexivity.
   - destruct args as [|v args]; [discriminate|]. destruct (key_pairs fuel args) as [ps'|] eqn:E; [|discriminate].
-    injection H as <-. cbn [keybinds fold_left fst snd]. apply IH. exact E.
+    injection H as <-. cbn [forallb keybinds fold_left]. unfold pair_ok at 1, kstep at 2. cbn [fst snd].
+    destruct (is_key_param ks k); cbn [orb andb].
+    + apply IH. exact E.
+    + destruct (other_key_allowed al keyargs k); cbn [andb]; [apply IH; exact E|reflexivity].
+Qed.
+Lemma key_loop_nopairs ks al keyargs fuel : forall args b, (length args < fuel)%nat -> key_pairs fuel args = None ->
+  key_loop fuel ks al keyargs args b = inr KBadKey.
+Proof.
+  induction fuel as [|fuel IH]; intros args b Hf H; [lia|]. cbn in H. cbn [key_loop].
+  destruct args as [|[z|k|] args]; try reflexivity; [discriminate|].
+  destruct args as [|v args]; [reflexivity|]. destruct (key_pairs fuel args) as [ps'|] eqn:E; [discriminate|].
+  assert (Hf' : (length args < fuel)%nat) by (cbn in Hf; lia).
+  destruct (is_key_param ks k); [apply IH; assumption|]. destruct (other_key_allowed al keyargs k); [apply IH; assumption|reflexivity].
 Qed.
 
-Lemma pass1_keysec df ks oa m a2 b : posmode m -> a2 <> [] ->
-  pass1 (Mk' PKey df :: map Vd ks ++ vsec PAux oa) m {| p_args := a2; p_b := b; p_rest := []; p_restsym := None; p_err := None |} =
-  match map Vd ks ++ vsec PAux oa with
-  | [] => {| p_args := a2; p_b := b; p_rest := []; p_restsym := None; p_err := None |}
-  | _ :: _ => match key_loop (S (length a2)) a2 b with
-              | inl b' => {| p_args := []; p_b := b'; p_rest := []; p_restsym := None; p_err := None |}
-              | inr k => {| p_args := a2; p_b := b; p_rest := []; p_restsym := None; p_err := Some k |}
-              end
+Lemma pass1_keysec ks al df tl m a2 b : posmode m -> a2 <> [] ->
+  pass1 ks al (Mk' PKey df :: tl) m {| p_args := a2; p_b := b; p_rest := []; p_restsym := None; p_err := None |} =
+  match key_loop (S (length a2)) ks al a2 a2 b with
+  | inl b' => {| p_args := []; p_b := b'; p_rest := []; p_restsym := None; p_err := None |}
+  | inr k => {| p_args := a2; p_b := b; p_rest := []; p_restsym := None; p_err := Some k |}
   end.
 Proof.
   intros Hm Hne. destruct a2 as [|a a2]; [congruence|].
-  destruct Hm as [-> | ->]; cbn [pass1 p_args p_err Mk' d_name]; (destruct (map Vd ks ++ vsec PAux oa) as [|d tl]; [reflexivity|]);
-    cbn [pass1 p_args p_err p_b p_rest p_restsym]; (destruct (key_loop (S (length (a :: a2))) (a :: a2) b); [apply pass1_noargs; reflexivity|reflexivity]).
+  destruct Hm as [-> | ->]; cbn [pass1 p_args p_err Mk' d_name p_b p_rest p_restsym];
+    (destruct (key_loop (S (length (a :: a2))) ks al (a :: a2) (a :: a2) b); [apply pass1_noargs; reflexivity|reflexivity]).
+Qed.
+
+(* ---------- FuncDoc.getKeyArg / otherKeyAllowed on a lambda list made of sections ---------- *)
+Lemma kpf_vars_false xs tl : key_params_from false (map Vd xs ++ tl) = key_params_from false tl.
+Proof. induction xs as [|[x d] xs IH]; cbn; [reflexivity|exact IH]. Qed.
+Lemma kpf_vars_true xs tl : key_params_from true (map Vd xs ++ tl) = map fst xs ++ key_params_from true tl.
+Proof. induction xs as [|[x d] xs IH]; cbn; [reflexivity|f_equal; exact IH]. Qed.
+Lemma kpf_aux_false o : key_params_from false (vsec PAux o) = [].
+Proof. destruct o as [[df aux]|]; [|reflexivity]. cbn [vsec key_params_from Mk' d_name]. rewrite <- (app_nil_r (map Vd aux)), kpf_vars_false. reflexivity. Qed.
+Lemma kpf_aux_true o : key_params_from true (vsec PAux o) = [].
+Proof. destruct o as [[df aux]|]; [|reflexivity]. cbn [vsec key_params_from Mk' d_name]. rewrite <- (app_nil_r (map Vd aux)), kpf_vars_false. reflexivity. Qed.
+Lemma key_params_build h : key_params (build h) = map fst (vars (h_key h)).
+Proof.
+  unfold key_params, build. rewrite kpf_vars_false.
+  assert (E1 : forall tl, key_params_from false (vsec POptional (h_opt h) ++ tl) = key_params_from false tl).
+  { intros tl. destruct (h_opt h) as [[df opt]|]; [|reflexivity]. cbn [vsec app key_params_from Mk' d_name]. apply kpf_vars_false. }
+  rewrite E1.
+  assert (E2 : forall tl, key_params_from false (restsec (h_rest h) ++ tl) = key_params_from false tl).
+  { intros tl. destruct (h_rest h) as [[df [r dr]]|]; reflexivity. }
+  rewrite E2.
+  destruct (h_key h) as [[dk ks]|]; cbn [vsec vars app map].
+  - cbn [key_params_from Mk' d_name]. rewrite kpf_vars_true.
+    destruct (h_allow h) as [da|]; cbn [allowsec app key_params_from Mk' d_name]; [rewrite kpf_aux_false|rewrite kpf_aux_true]; apply app_nil_r.
+  - destruct (h_allow h) as [da|]; cbn [allowsec app key_params_from Mk' d_name]; apply kpf_aux_false.
+Qed.
+
+Definition isPAllow (d : docarg) : bool := match d_name d with PAllow => true | _ => false end.
+Lemma has_allow_vars xs : existsb isPAllow (map Vd xs) = false.
+Proof. induction xs as [|[x d] xs IH]; cbn; [reflexivity|exact IH]. Qed.
+Lemma has_allow_vsec p o : p <> PAllow -> existsb isPAllow (vsec p o) = false.
+Proof.
+  intros Hp. destruct o as [[df vs]|]; [|reflexivity]. cbn [vsec existsb]. rewrite has_allow_vars. unfold isPAllow. cbn [Mk' d_name].
+  destruct p; try reflexivity. congruence.
+Qed.
+Lemma has_allow_build h : has_allow (build h) = match h_allow h with Some _ => true | None => false end.
+Proof.
+  unfold has_allow, build. fold isPAllow. rewrite !existsb_app, has_allow_vars, !has_allow_vsec by discriminate.
+  cbn [orb]. destruct (h_rest h) as [[df [r dr]]|]; cbn [restsec existsb isPAllow Mk' Vd d_name orb fst]; destruct (h_allow h); reflexivity.
 Qed.
 
 (* ---------- pass 2, section by section ---------- *)
@@ -225,24 +271,27 @@ Lemma pass2_key_vars xs : forall tl b, pass2 (map Vd xs ++ tl) M2Key b = pass2 t
 Proof. induction xs as [|[x d] xs IH]; intros tl b; cbn; [reflexivity|apply IH]. Qed.
 Lemma pass2_auxsec o m b : pass2 (vsec PAux o) m b = auxbinds (vars o) b.
 Proof. destruct o as [[df aux]|]; [|destruct m; reflexivity]. destruct m; cbn [vsec vars pass2 Mk' d_name]; apply pass2_aux_vars. Qed.
-Lemma pass2_keytail ok oa m b : m <> M2Aux ->
-  pass2 (vsec PKey ok ++ vsec PAux oa) m b = auxbinds (vars oa) (defaults (vars ok) b).
+Lemma pass2_allowsec o tl m b : m <> M2Aux -> pass2 (allowsec o ++ tl) m b = pass2 tl m b.
+Proof. intros Hm. destruct o as [df|]; [|reflexivity]. destruct m; try congruence; reflexivity. Qed.
+Lemma pass2_keytail ok oal oa m b : m <> M2Aux ->
+  pass2 (vsec PKey ok ++ allowsec oal ++ vsec PAux oa) m b = auxbinds (vars oa) (defaults (vars ok) b).
 Proof.
-  intros Hm. destruct ok as [[df ks]|]; cbn [vsec vars app]; [|apply pass2_auxsec].
-  destruct m; try congruence; cbn [pass2 Mk' d_name]; rewrite pass2_key_vars; apply pass2_auxsec.
+  intros Hm. destruct ok as [[df ks]|]; cbn [vsec vars app].
+  - destruct m; try congruence; cbn [pass2 Mk' d_name]; rewrite pass2_key_vars, pass2_allowsec by discriminate; apply pass2_auxsec.
+  - rewrite pass2_allowsec by exact Hm. apply pass2_auxsec.
 Qed.
-Lemma pass2_resttail orr ok oa m b : m = M2Req \/ m = M2Opt ->
-  pass2 (restsec orr ++ vsec PKey ok ++ vsec PAux oa) m b = auxbinds (vars oa) (defaults (vars ok) (defaults (restvars orr) b)).
+Lemma pass2_resttail orr ok oal oa m b : m = M2Req \/ m = M2Opt ->
+  pass2 (restsec orr ++ vsec PKey ok ++ allowsec oal ++ vsec PAux oa) m b = auxbinds (vars oa) (defaults (vars ok) (defaults (restvars orr) b)).
 Proof.
   intros Hm. destruct orr as [[df [r dr]]|]; cbn [restsec restvars app].
   - destruct Hm as [-> | ->]; cbn [pass2 Mk' d_name Vd fst snd]; rewrite pass2_keytail by discriminate; reflexivity.
   - apply pass2_keytail. destruct Hm as [-> | ->]; discriminate.
 Qed.
-Lemma pass2_build h b : h_allow h = None ->
+Lemma pass2_build h b :
   pass2 (build h) M2Req b =
   auxbinds (vars (h_aux h)) (defaults (vars (h_key h)) (defaults (restvars (h_rest h)) (defaults (vars (h_opt h)) b))).
 Proof.
-  intros Ha. unfold build. rewrite Ha. cbn [allowsec app]. rewrite pass2_req_vars.
+  unfold build. rewrite pass2_req_vars.
   destruct (h_opt h) as [[df opt]|]; cbn [vsec vars app].
   - cbn [pass2 Mk' d_name]. rewrite pass2_opt_vars. apply pass2_resttail. right; reflexivity.
   - apply pass2_resttail. left; reflexivity.
@@ -257,11 +306,12 @@ Definition a1of (l : llist) (args : list arg) := skipn (length (l_req l)) args.
 Definition a2of (l : llist) (args : list arg) := skipn (length (l_req l) + length (l_opt l)) args.
 Definition posb (l : llist) (args : list arg) : list (N * value) :=
   push_all (l_opt l) (a1of l args) (push_all (reqd (l_req l)) args []).
-(* after pass 1 (keys bound as they come) and the binding of the rest list *)
+(* after pass 1 (the first pair of every key parameter bound) and the binding of the rest list; when the
+   lambda list has both &rest and &key this is only used with no argument left (the guard) *)
 Definition scope1 (l : llist) (ps : list (N * arg)) (args : list arg) : list (N * value) :=
   match l_rest l, a2of l args with
-  | Some r, _ :: _ => bind (keybinds ps (posb l args)) r (VList (a2of l args))
-  | _, _ => keybinds ps (posb l args)
+  | Some r, _ :: _ => bind (keybinds (map fst (keysl l)) ps (posb l args)) r (VList (a2of l args))
+  | _, _ => keybinds (map fst (keysl l)) ps (posb l args)
   end.
 (* after pass 2 *)
 Definition scope2 (l : llist) (ps : list (N * arg)) (args : list arg) : list (N * value) :=
@@ -284,25 +334,35 @@ Proof.
   intros H. unfold specl, names. rewrite !map_app, bind_opt_keys, combine_keys by exact H. rewrite !map_map. reflexivity.
 Qed.
 
-Lemma lookup_keybinds_notin ps : forall b x, ~ In x (map fst ps) -> lookup (keybinds ps b) x = lookup b x.
+Lemma is_key_param_in ks k : is_key_param ks k = true <-> In k ks.
 Proof.
-  unfold keybinds. induction ps as [|[k v] ps IH]; intros b x H; [reflexivity|]. cbn [fold_left fst snd]. cbn in H.
-  rewrite IH by (intros Hi; apply H; right; exact Hi). apply lookup_bind_other. intros ->. apply H. left. reflexivity.
+  unfold is_key_param. rewrite existsb_exists. split.
+  - intros (y & Hy & E). apply N.eqb_eq in E. subst y. exact Hy.
+  - intros H. exists k. split; [exact H|apply N.eqb_refl].
 Qed.
-Lemma first_pair_notin k ps : ~ In k (map fst ps) -> first_pair k ps = None.
+Lemma is_key_param_notin ks k : ~ In k ks -> is_key_param ks k = false.
+Proof. intros H. destruct (is_key_param ks k) eqn:E; [|reflexivity]. apply is_key_param_in in E. contradiction. Qed.
+
+(* what the key loop leaves in the scope: a variable bound before stays; an unbound key parameter gets the
+   value of its FIRST pair; nothing else is bound *)
+Lemma lookup_keybinds ks ps : forall b x,
+  lookup (keybinds ks ps b) x =
+  match lookup b x with
+  | Some v => Some v
+  | None => if is_key_param ks x then match first_pair x ps with Some v => Some (arg_val v) | None => None end else None
+  end.
 Proof.
-  induction ps as [|[k' v] ps IH]; intros H; [reflexivity|]. cbn in *. destruct (N.eqb_spec k k') as [->|Hn]; [exfalso; apply H; left; reflexivity|].
-  apply IH. intros Hi. apply H. right. exact Hi.
-Qed.
-(* with every key supplied at most once the code's last-wins binding is the specification's first-wins one *)
-Lemma lookup_keybinds_in ps : forall b k, NoDup (map fst ps) ->
-  lookup (keybinds ps b) k = match first_pair k ps with Some v => Some (arg_val v) | None => lookup b k end.
-Proof.
-  unfold keybinds. induction ps as [|[k' v'] ps IH]; intros b k Hnd; [reflexivity|]. cbn [fold_left fst snd first_pair].
-  cbn in Hnd. inversion Hnd as [|? ? Hni Hnd']; subst. rewrite IH by exact Hnd'.
-  destruct (N.eqb_spec k k') as [->|Hn].
-  - rewrite first_pair_notin by exact Hni. apply lookup_bind_same.
-  - destruct (first_pair k ps); [reflexivity|]. apply lookup_bind_other. exact Hn.
+  unfold keybinds. induction ps as [|[k v] ps IH]; intros b x.
+  - cbn [fold_left first_pair]. destruct (lookup b x); [reflexivity|]. destruct (is_key_param ks x); reflexivity.
+  - cbn [fold_left]. rewrite IH. unfold kstep. cbn [fst snd first_pair].
+    destruct (is_key_param ks k) eqn:Ek.
+    + destruct (lookup b k) as [w|] eqn:Elk.
+      * destruct (lookup b x) eqn:Elx; [reflexivity|].
+        destruct (N.eqb_spec x k) as [->|Hn]; [congruence|reflexivity].
+      * destruct (N.eqb_spec x k) as [->|Hn].
+        -- rewrite lookup_bind_same, Elk, Ek. reflexivity.
+        -- rewrite lookup_bind_other by exact Hn. reflexivity.
+    + destruct (lookup b x); [reflexivity|]. destruct (N.eqb_spec x k) as [->|Hn]; [rewrite Ek; reflexivity|reflexivity].
 Qed.
 
 Lemma notin_firstn {B} n (xs : list (N * B)) x : ~ In x (map fst xs) -> ~ In x (map fst (firstn n xs)).
@@ -315,11 +375,15 @@ Proof.
   intros Hr Ho. unfold posb. rewrite lookup_push_all_notin by (apply notin_firstn; exact Ho).
   rewrite lookup_push_all_notin by (apply notin_firstn; rewrite reqd_keys; exact Hr). reflexivity.
 Qed.
-Lemma lookup_scope1_notrest l ps args x : ~ In x (map fst (restl l)) -> lookup (scope1 l ps args) x = lookup (keybinds ps (posb l args)) x.
+Lemma lookup_scope1_notrest l ps args x : ~ In x (map fst (restl l)) ->
+  lookup (scope1 l ps args) x = lookup (keybinds (map fst (keysl l)) ps (posb l args)) x.
 Proof.
   intros H. unfold scope1. unfold restl in H. destruct (l_rest l) as [r|]; [|reflexivity]. destruct (a2of l args); [reflexivity|].
   apply lookup_bind_other. intros ->. apply H. left. reflexivity.
 Qed.
+(* a variable that is no key parameter is not touched by the key loop *)
+Lemma lookup_keybinds_nokey ks ps b x : ~ In x ks -> lookup (keybinds ks ps b) x = lookup b x.
+Proof. intros H. rewrite lookup_keybinds, is_key_param_notin by exact H. destruct (lookup b x); reflexivity. Qed.
 
 Ltac dj DQ DO DR DK :=
   let Hc := fresh "Hc" in
@@ -330,18 +394,17 @@ Ltac dj DQ DO DR DK :=
             | apply (DR y H); rewrite ?in_app_iff; tauto | apply (DK y H); rewrite ?in_app_iff; tauto ]
   end.
 
-(* every binding of the specification is what the code's scope holds *)
+(* every binding of the specification is what the code's scope holds - for ANY keyword/value pairs: unknown
+   and repeated keywords need no side condition any more *)
 Lemma scope_meets_spec l ps args :
   NoDup (names l) -> (length (l_req l) <= length args)%nat ->
-  (forall k, In k (map fst ps) -> In k (map fst (keysl l))) -> NoDup (map fst ps) ->
   forall x v, In (x, v) (specl l ps args) -> lookup (scope2 l ps args) x = Some v.
 Proof.
-  intros Hnd Hlen Hknown Hpsnd x v Hin. unfold names in Hnd.
+  intros Hnd Hlen x v Hin. unfold names in Hnd.
   destruct (NoDup_app_parts _ _ Hnd) as (NDq & Hnd1 & DQ).
   destruct (NoDup_app_parts _ _ Hnd1) as (NDo & Hnd2 & DO).
   destruct (NoDup_app_parts _ _ Hnd2) as (NDr & Hnd3 & DR).
   destruct (NoDup_app_parts _ _ Hnd3) as (NDk & NDa & DK).
-  assert (Hps : ~ In x (map fst (keysl l)) -> ~ In x (map fst ps)) by (intros H Hi; apply H; apply Hknown; exact Hi).
   unfold specl in Hin. unfold scope2.
   apply in_app_or in Hin as [Hin|Hin]; [|apply in_app_or in Hin as [Hin|Hin]; [|apply in_app_or in Hin as [Hin|Hin]; [|apply in_app_or in Hin as [Hin|Hin]]]].
   - (* a required parameter *)
@@ -350,7 +413,7 @@ Proof.
     assert (Hxr : In x (l_req l)) by (eapply nth_error_In; exact Hi1).
     rewrite lookup_auxbinds_notin by dj DQ DO DR DK. rewrite lookup_defaults_notin by dj DQ DO DR DK.
     rewrite lookup_defaults_notin by dj DQ DO DR DK. rewrite lookup_defaults_notin by dj DQ DO DR DK.
-    rewrite lookup_scope1_notrest by dj DQ DO DR DK. rewrite lookup_keybinds_notin by (apply Hps; dj DQ DO DR DK).
+    rewrite lookup_scope1_notrest by dj DQ DO DR DK. rewrite lookup_keybinds_nokey by dj DQ DO DR DK.
     unfold posb. rewrite lookup_push_all_notin by (apply notin_firstn; dj DQ DO DR DK).
     apply (lookup_push_all_in (reqd (l_req l)) args [] i x None a); [rewrite reqd_keys; exact NDq| |exact Hi2].
     unfold reqd. rewrite nth_error_map, Hi1. reflexivity.
@@ -360,7 +423,7 @@ Proof.
     rewrite lookup_auxbinds_notin by dj DQ DO DR DK. rewrite lookup_defaults_notin by dj DQ DO DR DK.
     rewrite lookup_defaults_notin by dj DQ DO DR DK.
     rewrite (lookup_defaults_in (l_opt l) _ x d NDo) by (eapply nth_error_In; exact Hj).
-    rewrite lookup_scope1_notrest by dj DQ DO DR DK. rewrite lookup_keybinds_notin by (apply Hps; dj DQ DO DR DK).
+    rewrite lookup_scope1_notrest by dj DQ DO DR DK. rewrite lookup_keybinds_nokey by dj DQ DO DR DK.
     unfold posb. destruct Hc as [(a & Ha & ->)|[Hl ->]].
     + rewrite (lookup_push_all_in (l_opt l) _ _ j x d a NDo Hj Ha). reflexivity.
     + assert (E : lookup (push_all (l_opt l) (a1of l args) (push_all (reqd (l_req l)) args [])) x = None).
@@ -384,7 +447,7 @@ Proof.
     unfold scope1. unfold restl in Hc. destruct (l_rest l) as [r'|] eqn:Er; [|destruct Hc].
     destruct Hc as [Hc|[]]. injection Hc as ->.
     destruct (a2of l args) as [|a rem]; [|rewrite lookup_bind_same; reflexivity].
-    rewrite lookup_keybinds_notin by (apply Hps; dj DQ DO DR DK).
+    rewrite lookup_keybinds_nokey by dj DQ DO DR DK.
     rewrite lookup_posb_none by dj DQ DO DR DK. reflexivity.
   - (* a key parameter *)
     apply in_map_iff in Hin as ((k & d) & E & Hc). cbn [fst snd] in E. injection E as <- <-.
@@ -392,8 +455,9 @@ Proof.
     rewrite lookup_auxbinds_notin by dj DQ DO DR DK.
     rewrite (lookup_defaults_in (keysl l) _ k d NDk Hc).
     rewrite lookup_defaults_notin by dj DQ DO DR DK. rewrite lookup_defaults_notin by dj DQ DO DR DK.
-    rewrite lookup_scope1_notrest by dj DQ DO DR DK. rewrite lookup_keybinds_in by exact Hpsnd.
-    destruct (first_pair k ps); [reflexivity|]. rewrite lookup_posb_none by dj DQ DO DR DK. reflexivity.
+    rewrite lookup_scope1_notrest by dj DQ DO DR DK. rewrite lookup_keybinds.
+    rewrite lookup_posb_none by dj DQ DO DR DK. rewrite (proj2 (is_key_param_in _ _) Hxk).
+    destruct (first_pair k ps); reflexivity.
   - (* an auxiliary parameter *)
     apply in_map_iff in Hin as ((x' & d) & E & Hc). injection E as -> <-.
     apply (lookup_auxbinds_in (l_aux l) _ x d NDa Hc).
@@ -401,15 +465,14 @@ Qed.
 
 Lemma scope_reorder l ps args :
   NoDup (names l) -> (length (l_req l) <= length args)%nat ->
-  (forall k, In k (map fst ps) -> In k (map fst (keysl l))) -> NoDup (map fst ps) ->
   map (fun x => (x, match lookup (scope2 l ps args) x with Some v => v | None => VUnbound end)) (names l) = specl l ps args.
 Proof.
-  intros Hnd Hlen Hk Hp. rewrite <- (specl_keys l ps args Hlen).
+  intros Hnd Hlen. rewrite <- (specl_keys l ps args Hlen).
   assert (Hkk : NoDup (map fst (specl l ps args))) by (rewrite specl_keys by exact Hlen; exact Hnd).
   rewrite <- (reorder_id (specl l ps args) Hkk) at 2.
   apply map_ext_in. intros x Hx. f_equal.
   apply in_map_iff in Hx as ((x' & v) & Ex & Hin). cbn in Ex. subst x'.
-  rewrite (lookup_in _ x v Hkk Hin). rewrite (scope_meets_spec l ps args Hnd Hlen Hk Hp x v Hin). reflexivity.
+  rewrite (lookup_in _ x v Hkk Hin). rewrite (scope_meets_spec l ps args Hnd Hlen x v Hin). reflexivity.
 Qed.
 
 (* ---------- the specification on a lambda list, with the sections made explicit ---------- *)
@@ -423,7 +486,7 @@ Lemma bind_S_sections l args : (length (l_req l) <= length args)%nat ->
   | Some ks =>
       match key_pairs (S (length (a2of l args))) (a2of l args) with
       | None => OErr KBadKey
-      | Some ps => if negb (l_allow l) && negb (forallb (fun p => existsb (fun kd => N.eqb (fst kd) (fst p)) ks) ps) then OErr KBadKey
+      | Some ps => if negb (keys_allowed l ps) && negb (forallb (fun p => key_known ks (fst p)) ps) then OErr KBadKey
                    else OBound (specl l ps args)
       end
   end.
@@ -435,6 +498,8 @@ Proof.
   rewrite skipn_skipn in Hr. fold (a2of l args) in Hr. subst r2. unfold specl, restl, keysl. rewrite <- Hb.
   destruct (l_key l) as [ks|], (l_rest l) as [r|]; cbn [map app fst snd]; reflexivity.
 Qed.
+Lemma bind_S_short l args : (length args < length (l_req l))%nat -> bind_S l args = OErr KTooFew.
+Proof. intros H. unfold bind_S. rewrite bind_req_short by exact H. reflexivity. Qed.
 
 (* ---------- the code model on a lambda list made of sections ---------- *)
 Definition rest_nodef (h : shape) : Prop := match h_rest h with Some (_, (_, dr)) => dr = None | None => True end.
@@ -445,12 +510,12 @@ Proof.
   cbn [map reqd combine fold_left fst snd]. apply IH.
 Qed.
 
-Lemma pass1_build h args : h_allow h = None ->
-  pass1 (build h) MReq (st0 args) =
-  pass1 (restsec (h_rest h) ++ vsec PKey (h_key h) ++ vsec PAux (h_aux h)) (match h_opt h with Some _ => MOpt | None => MReq end)
+Lemma pass1_build ks al h args :
+  pass1 ks al (build h) MReq (st0 args) =
+  pass1 ks al (restsec (h_rest h) ++ vsec PKey (h_key h) ++ allowsec (h_allow h) ++ vsec PAux (h_aux h)) (match h_opt h with Some _ => MOpt | None => MReq end)
     {| p_args := a2of (ll_of h) args; p_b := posb (ll_of h) args; p_rest := []; p_restsym := None; p_err := None |}.
 Proof.
-  intros Ha. unfold build. rewrite Ha. cbn [allowsec app]. rewrite pass1_prefix. unfold a2of, posb, a1of. cbn [ll_of l_req l_opt].
+  unfold build. rewrite pass1_prefix. unfold a2of, posb, a1of. cbn [ll_of l_req l_opt].
   rewrite map_length, <- push_all_reqd. reflexivity.
 Qed.
 
@@ -476,32 +541,28 @@ Proof. unfold rest_nodef, restl. cbn [ll_of l_rest]. destruct (h_rest h) as [[df
 Lemma keysl_ll_of h : keysl (ll_of h) = vars (h_key h).
 Proof. unfold keysl. cbn [ll_of l_key]. destruct (h_key h) as [[dk ks]|]; reflexivity. Qed.
 
+(* FuncDoc.requiredCount of a lambda list made of sections *)
+Lemma req_count_vars xs tl : req_count (map Vd xs ++ tl) = (length xs + req_count tl)%nat.
+Proof. induction xs as [|[x d] xs IH]; cbn; [reflexivity|f_equal; exact IH]. Qed.
+Lemma req_count_build h : req_count (build h) = length (l_req (ll_of h)).
+Proof.
+  unfold build. rewrite req_count_vars. cbn [ll_of l_req]. rewrite map_length.
+  assert (E : req_count (vsec POptional (h_opt h) ++ restsec (h_rest h) ++ vsec PKey (h_key h) ++ allowsec (h_allow h) ++ vsec PAux (h_aux h)) = 0%nat).
+  { destruct (h_opt h) as [[? ?]|]; [reflexivity|]. destruct (h_rest h) as [[? [? ?]]|]; [reflexivity|].
+    destruct (h_key h) as [[? ?]|]; [reflexivity|]. destruct (h_allow h); [reflexivity|]. destruct (h_aux h) as [[? ?]|]; reflexivity. }
+  rewrite E. lia.
+Qed.
+
 (* when pass 1 consumed every argument, the body sees scope2 *)
-Lemma bind_M_bound h args ps st : h_allow h = None -> rest_nodef h ->
-  pass1 (build h) MReq (st0 args) = st -> p_err st = None -> p_args st = [] ->
+Lemma bind_M_bound h args ps st : rest_nodef h -> (length (l_req (ll_of h)) <= length args)%nat ->
+  pass1 (key_params (build h)) (has_allow (build h)) (build h) MReq (st0 args) = st -> p_err st = None -> p_args st = [] ->
   match p_rest st, p_restsym st with _ :: _, Some r => bind (p_b st) r (VList (p_rest st)) | _, _ => p_b st end = scope1 (ll_of h) ps args ->
   bind_M (build h) args =
   OBound (map (fun x => (x, match lookup (scope2 (ll_of h) ps args) x with Some v => v | None => VUnbound end)) (names (ll_of h))).
 Proof.
-  intros Ha Hrd Hst He Hargs Hsc. unfold bind_M. fold (st0 args). cbv zeta. rewrite Hst, He, Hargs, Hsc, pass2_build by exact Ha.
+  intros Hrd Hlen Hst He Hargs Hsc. unfold bind_M. fold (st0 args). cbv zeta. rewrite Hst, He, Hargs, Hsc, pass2_build.
+  rewrite req_count_build. destruct (Nat.ltb_spec (length args) (length (l_req (ll_of h)))); [lia|].
   rewrite params_build, restvars_restl by exact Hrd. unfold scope2. rewrite keysl_ll_of. reflexivity.
-Qed.
-
-Lemma no_dup_keys_cons k a ps : no_dup_keys ((k, a) :: ps) = negb (existsb (fun p => N.eqb (fst p) k) ps) && no_dup_keys ps.
-Proof. reflexivity. Qed.
-Lemma no_dup_keys_NoDup ps : no_dup_keys ps = true -> NoDup (map fst ps).
-Proof.
-  induction ps as [|[k a] ps IH]; intros H; [constructor|]. rewrite no_dup_keys_cons in H. apply andb_true_iff in H as [H1 H2].
-  cbn [map fst]. constructor; [|apply IH; exact H2]. intros Hi. apply negb_true_iff in H1.
-  apply in_map_iff in Hi as (p & Ep & Hp). assert (Hx : existsb (fun p => N.eqb (fst p) k) ps = true) by (apply existsb_exists; exists p; split; [exact Hp|rewrite Ep; apply N.eqb_refl]).
-  congruence.
-Qed.
-Lemma known_keys_in ks (ps : list (N * arg)) :
-  forallb (fun p => existsb (fun kd : N * option Z => N.eqb (fst kd) (fst p)) ks) ps = true ->
-  forall k, In k (map fst ps) -> In k (map fst ks).
-Proof.
-  intros H k Hi. apply in_map_iff in Hi as (p & <- & Hp). rewrite forallb_forall in H. specialize (H p Hp).
-  apply existsb_exists in H as (kd & Hkd & E). apply N.eqb_eq in E. apply in_map_iff. exists kd. auto.
 Qed.
 
 Lemma reorder_specl h ps args : NoDup (names (ll_of h)) -> (length (l_req (ll_of h)) <= length args)%nat ->
@@ -511,72 +572,106 @@ Proof.
   rewrite specl_keys by exact Hlen. exact Hnd.
 Qed.
 
-Lemma bind_M_err ds args st k : pass1 ds MReq (st0 args) = st -> p_err st = Some k -> bind_M ds args = OErr k.
+Lemma bind_M_err ds args st k : pass1 (key_params ds) (has_allow ds) ds MReq (st0 args) = st -> p_err st = Some k -> bind_M ds args = OErr k.
 Proof. intros Hst He. unfold bind_M. fold (st0 args). cbv zeta. rewrite Hst, He. reflexivity. Qed.
-Lemma bind_M_toomany ds args st : pass1 ds MReq (st0 args) = st -> p_err st = None -> p_args st <> [] -> bind_M ds args = OErr KTooMany.
+Lemma bind_M_toomany ds args st : pass1 (key_params ds) (has_allow ds) ds MReq (st0 args) = st -> p_err st = None -> p_args st <> [] -> bind_M ds args = OErr KTooMany.
 Proof. intros Hst He Ha. unfold bind_M. fold (st0 args). cbv zeta. rewrite Hst, He. destruct (p_args st); [congruence|reflexivity]. Qed.
 
-Lemma key_pairs_nonempty fuel a rem ps : key_pairs fuel (a :: rem) = Some ps -> ps <> [].
+Lemma forallb_ext' {A} (f g : A -> bool) l : (forall x, f x = g x) -> forallb f l = forallb g l.
+Proof. intros H. induction l as [|a l IH]; cbn; [reflexivity|]. rewrite H, IH. reflexivity. Qed.
+
+(* :allow-other-keys among well-formed key arguments: the first pair counts *)
+Lemma allow_in_args_pairs fuel : forall args ps, key_pairs fuel args = Some ps ->
+  allow_in_args args = match first_pair allow_kw ps with Some ANil => false | Some _ => true | None => false end.
 Proof.
-  destruct fuel; cbn; [discriminate|]. destruct a; try discriminate. destruct rem; [discriminate|].
-  destruct (key_pairs fuel rem); [|discriminate]. intros H. injection H as <-. discriminate.
+  induction fuel as [|fuel IH]; intros args ps H; cbn in H; [discriminate|].
+  destruct args as [|[z|k|] args]; try discriminate.
+  - injection H as <-. reflexivity.
+  - destruct args as [|v args]; [discriminate|]. destruct (key_pairs fuel args) as [ps'|] eqn:E; [|discriminate].
+    injection H as <-. cbn [allow_in_args first_pair]. rewrite (N.eqb_sym allow_kw k).
+    destruct (N.eqb k allow_kw); [destruct v; reflexivity|apply IH; exact E].
+Qed.
+
+(* the binder accepts a list of well-formed pairs exactly when the specification does *)
+Lemma pairs_accepted h a2 ps : key_pairs (S (length a2)) a2 = Some ps ->
+  forallb (pair_ok (map fst (vars (h_key h))) (match h_allow h with Some _ => true | None => false end) a2) ps =
+  negb (negb (keys_allowed (ll_of h) ps) && negb (forallb (fun p => key_known (vars (h_key h)) (fst p)) ps)).
+Proof.
+  intros Hkp. unfold keys_allowed. cbn [ll_of l_allow]. rewrite <- (allow_in_args_pairs _ _ _ Hkp).
+  set (al := match h_allow h with Some _ => true | None => false end). set (ai := allow_in_args a2).
+  assert (Hk : forall k, is_key_param (map fst (vars (h_key h))) k = existsb (fun kd : N * option Z => N.eqb (fst kd) k) (vars (h_key h))).
+  { intros k. unfold is_key_param. induction (vars (h_key h)) as [|[x d] l IH]; cbn; [reflexivity|]. rewrite IH, (N.eqb_sym k x). reflexivity. }
+  destruct (al || ai) eqn:Eal.
+  - cbn [negb andb]. apply forallb_forall. intros p _. unfold pair_ok, other_key_allowed. fold al ai.
+    rewrite <- orb_assoc, Eal, !orb_true_r. reflexivity.
+  - cbn [negb andb]. rewrite negb_involutive. apply forallb_ext'. intros p. unfold pair_ok, other_key_allowed, key_known. fold al ai.
+    rewrite <- orb_assoc, Eal, orb_false_r, Hk. reflexivity.
 Qed.
 
 (* ---------- the binder meets the specification on every lambda list made of sections ---------- *)
 Theorem binder_shape h args :
   NoDup (names (ll_of h)) -> rest_nodef h -> guard_l (ll_of h) args = true ->
-  bind_M (build h) args = reorder (build h) (bind_S (ll_of h) args) \/
-  (bind_M (build h) args = OErr KTooMany /\ bind_S (ll_of h) args = OErr KBadKey /\ l_key (ll_of h) = Some [] /\ l_aux (ll_of h) = []).
+  bind_M (build h) args = reorder (build h) (bind_S (ll_of h) args).
 Proof.
   intros Hnd Hrd Hg. unfold guard_l in Hg.
-  apply andb_true_iff in Hg as [Hg Hkey]. apply andb_true_iff in Hg as [Hg Hrest]. apply andb_true_iff in Hg as [Hg Hal].
-  apply andb_true_iff in Hg as [Hlen Hrk]. apply Nat.leb_le in Hlen.
-  fold (a2of (ll_of h) args) in Hrest, Hkey.
-  assert (Ha : h_allow h = None) by (destruct (h_allow h) eqn:E; [cbn [ll_of l_allow] in Hal; rewrite E in Hal; discriminate|reflexivity]).
   assert (Hm : posmode (match h_opt h with Some _ => MOpt | None => MReq end)) by (destruct (h_opt h); [right|left]; reflexivity).
+  pose proof (key_params_build h) as Hks. pose proof (has_allow_build h) as Hal.
+  set (KS := key_params (build h)) in *. set (AL := has_allow (build h)) in *.
+  pose proof (pass1_build KS AL h args) as Hp1.
+  destruct (Nat.le_gt_cases (length (l_req (ll_of h))) (length args)) as [Hlen|Hshort].
+  2:{ (* too few arguments: both reject *)
+    rewrite bind_S_short by exact Hshort. cbn [reorder].
+    assert (Ea : a2of (ll_of h) args = []) by (unfold a2of; apply skipn_all2; lia).
+    rewrite Ea in Hp1. rewrite (pass1_noargs _ _ (restsec _ ++ _)) in Hp1 by reflexivity.
+    unfold bind_M. fold (st0 args). fold KS AL. cbv zeta. rewrite Hp1. cbn [p_err p_args]. rewrite req_count_build.
+    destruct (Nat.ltb_spec (length args) (length (l_req (ll_of h)))); [reflexivity|lia]. }
   rewrite (bind_S_sections _ _ Hlen).
-  pose proof (pass1_build h args Ha) as Hp1.
   destruct (a2of (ll_of h) args) as [|a rem] eqn:Ea2.
   - (* all arguments are consumed by the positional parameters *)
-    left. rewrite (pass1_noargs (restsec _ ++ _)) in Hp1 by reflexivity.
-    rewrite (bind_M_bound h args [] _ Ha Hrd Hp1 eq_refl eq_refl).
+    rewrite (pass1_noargs _ _ (restsec _ ++ _)) in Hp1 by reflexivity.
+    rewrite (bind_M_bound h args [] _ Hrd Hlen Hp1 eq_refl eq_refl).
     2:{ cbn [p_rest p_restsym p_b]. unfold scope1. rewrite Ea2. destruct (l_rest (ll_of h)); reflexivity. }
-    rewrite scope_reorder; [| exact Hnd | exact Hlen | intros k [] | constructor].
+    rewrite scope_reorder by assumption.
     destruct (l_key (ll_of h)) as [ks|] eqn:Ek.
     + cbn [length key_pairs forallb negb]. rewrite andb_false_r. symmetry. apply reorder_specl; assumption.
     + destruct (l_rest (ll_of h)); symmetry; apply reorder_specl; assumption.
-  - cbn [ll_of l_key l_rest l_aux] in Hrk, Hrest, Hkey |- *.
-    destruct (h_rest h) as [[df [r dr]]|] eqn:Er, (h_key h) as [[dk ks]|] eqn:Ek; cbn [restsec vsec app] in Hp1.
-    + discriminate.
+  - cbn [ll_of l_key l_rest l_aux l_req l_opt] in Hg |- *.
+    destruct (h_rest h) as [[df [r dr]]|] eqn:Er, (h_key h) as [[dk ks]|] eqn:Ek.
+    + (* &rest and &key with arguments left: outside the guard *)
+      exfalso. apply Nat.leb_le in Hg. unfold a2of in Ea2. cbn [ll_of l_req l_opt] in Ea2.
+      rewrite skipn_all2 in Ea2 by lia. discriminate.
     + (* &rest: every remaining argument goes to the rest list *)
-      left. rewrite pass1_restsec in Hp1 by (try exact Hm; try exact Hrest; discriminate).
-      rewrite (bind_M_bound h args [] _ Ha Hrd Hp1 eq_refl eq_refl).
-      2:{ cbn [p_rest p_restsym p_b]. unfold scope1. cbn [ll_of l_rest]. rewrite Er, Ea2. reflexivity. }
-      rewrite scope_reorder; [| exact Hnd | exact Hlen | intros k [] | constructor].
+      assert (Hp1' : pass1 KS AL (build h) MReq (st0 args) =
+                     {| p_args := []; p_b := posb (ll_of h) args; p_rest := a :: rem; p_restsym := Some r; p_err := None |}).
+      { rewrite Hp1, Hks. cbn [vars map restsec vsec app]. apply pass1_restsec; [exact Hm|discriminate]. }
+      rewrite (bind_M_bound h args [] _ Hrd Hlen Hp1' eq_refl eq_refl).
+      2:{ cbn [p_rest p_restsym p_b]. unfold scope1. cbn [ll_of l_rest]. rewrite Er, Ea2. unfold keysl. cbn [ll_of l_key]. rewrite Ek. reflexivity. }
+      rewrite scope_reorder by assumption.
       symmetry; apply reorder_specl; assumption.
     + (* &key: the remaining arguments are keyword/value pairs *)
-      rewrite pass1_keysec in Hp1 by (try exact Hm; discriminate).
+      assert (Hp1' : pass1 KS AL (build h) MReq (st0 args) =
+                     match key_loop (S (length (a :: rem))) (map fst ks) (match h_allow h with Some _ => true | None => false end) (a :: rem) (a :: rem) (posb (ll_of h) args) with
+                     | inl b' => {| p_args := []; p_b := b'; p_rest := []; p_restsym := None; p_err := None |}
+                     | inr k => {| p_args := a :: rem; p_b := posb (ll_of h) args; p_rest := []; p_restsym := None; p_err := Some k |}
+                     end).
+      { rewrite Hp1, Hks, Hal. cbn [vars map restsec vsec app]. apply pass1_keysec; [exact Hm|discriminate]. }
+      clear Hp1.
       destruct (key_pairs (S (length (a :: rem))) (a :: rem)) as [ps|] eqn:Ekp.
-      * left. apply andb_true_iff in Hkey as [Hkn Hndk].
-        assert (Hks : map Vd ks ++ vsec PAux (h_aux h) <> []).
-        { pose proof (key_pairs_nonempty _ _ _ _ Ekp) as Hpn. destruct ps as [|p ps]; [congruence|].
-          cbn [forallb] in Hkn. apply andb_true_iff in Hkn as [Hk1 _]. destruct ks; [discriminate|discriminate]. }
-        destruct (map Vd ks ++ vsec PAux (h_aux h)) as [|d tl]; [congruence|].
-        rewrite (key_loop_pairs _ _ _ _ Ekp) in Hp1.
-        rewrite (bind_M_bound h args ps _ Ha Hrd Hp1 eq_refl eq_refl).
-        2:{ cbn [p_rest p_restsym p_b]. unfold scope1. cbn [ll_of l_rest]. rewrite Er. reflexivity. }
-        rewrite scope_reorder; [| exact Hnd | exact Hlen | | apply no_dup_keys_NoDup; exact Hndk].
-        2:{ unfold keysl. cbn [ll_of l_key]. rewrite Ek. apply known_keys_in. exact Hkn. }
-        rewrite Hkn. cbn [negb]. rewrite andb_false_r. symmetry; apply reorder_specl; assumption.
-      * assert (Hnk : match a with AKw _ => False | _ => True end) by (destruct a; [exact I|discriminate|exact I]).
-        destruct (map Vd ks ++ vsec PAux (h_aux h)) as [|d tl] eqn:Etl.
-        -- right. split; [apply (bind_M_toomany _ _ _ Hp1); [reflexivity|discriminate]|]. split; [reflexivity|].
-           apply app_eq_nil in Etl as [E1 E2]. apply map_eq_nil in E1. subst ks.
-           split; [reflexivity|]. destruct (h_aux h) as [[da aux]|]; [discriminate|reflexivity].
-        -- left. cbn [reorder]. destruct a as [z|k|]; [|destruct Hnk|]; cbn [key_loop length] in Hp1; apply (bind_M_err _ _ _ _ Hp1); reflexivity.
+      * rewrite (key_loop_pairs _ _ _ _ _ _ _ Ekp) in Hp1'.
+        pose proof (pairs_accepted h (a :: rem) ps Ekp) as Hacc. rewrite Ek in Hacc. cbn [vars] in Hacc. rewrite Hacc in Hp1'.
+        destruct (negb (keys_allowed (ll_of h) ps) && negb (forallb (fun p => key_known ks (fst p)) ps)); cbn [negb] in Hp1'.
+        -- cbn [reorder]. apply (bind_M_err _ _ _ _ Hp1'). reflexivity.
+        -- rewrite (bind_M_bound h args ps _ Hrd Hlen Hp1' eq_refl eq_refl).
+           2:{ cbn [p_rest p_restsym p_b]. unfold scope1. cbn [ll_of l_rest]. rewrite Er. unfold keysl. cbn [ll_of l_key]. rewrite Ek. reflexivity. }
+           rewrite scope_reorder by assumption.
+           symmetry; apply reorder_specl; assumption.
+      * rewrite key_loop_nopairs in Hp1' by (try exact Ekp; cbn [length]; lia).
+        cbn [reorder]. apply (bind_M_err _ _ _ _ Hp1'). reflexivity.
     + (* neither: too many arguments *)
-      left. rewrite pass1_auxsec in Hp1 by (try exact Hm; reflexivity).
-      cbn [reorder]. apply (bind_M_toomany _ _ _ Hp1); [reflexivity|discriminate].
+      assert (Hp1' : pass1 KS AL (build h) MReq (st0 args) =
+                     {| p_args := a :: rem; p_b := posb (ll_of h) args; p_rest := []; p_restsym := None; p_err := None |}).
+      { rewrite Hp1. cbn [restsec vsec app]. rewrite pass1_allowsec, pass1_auxsec by (try exact Hm; reflexivity). reflexivity. }
+      cbn [reorder]. apply (bind_M_toomany _ _ _ Hp1'); [reflexivity|discriminate].
 Qed.
 
 (* ---------- from sections back to arbitrary lambda lists ---------- *)
@@ -590,20 +685,28 @@ Proof.
   destruct (h_rest h) as [[df [r dr]]|]; [|exact I]. cbn in H. destruct dr; [discriminate|reflexivity].
 Qed.
 
-(* THE REFINEMENT THEOREM: for every lambda list the parser accepts (required, &optional, &rest, &key, &aux
-   sections) with distinct parameter names and a plain &rest variable, and every argument vector inside the
-   guard, the two-pass binder model yields exactly the outcome of the specification; the only divergence
-   is the kind of the rejection for a lambda list whose &key section is empty (and without &aux) called with a
-   left-over non-keyword argument: the code says "too many arguments", the specification "bad key". *)
+(* THE REFINEMENT THEOREM: for every lambda list the parser accepts (required, &optional, &rest, &key,
+   &allow-other-keys, &aux sections) with distinct parameter names and a plain &rest variable, and every
+   argument vector inside the guard, the two-pass binder model of the repaired Lambda.Call yields exactly the
+   outcome of the specification - bindings and rejections alike. *)
 Theorem binder_meets_spec_guard ds l args :
   parse_ll ds = Some l -> NoDup (params ds) -> rest_plain ds = true -> in_domain ds args = true ->
-  bind_M ds args = reorder ds (bind_S l args) \/
-  (bind_M ds args = OErr KTooMany /\ bind_S l args = OErr KBadKey /\ l_key l = Some [] /\ l_aux l = []).
+  bind_M ds args = reorder ds (bind_S l args).
 Proof.
   intros Hp Hnd Hrp Hg. unfold in_domain in Hg. rewrite Hp in Hg.
   destruct (parse_shape ds l Hp) as (h & -> & ->).
   apply binder_shape; [rewrite <- params_build; exact Hnd|apply rest_plain_nodef; exact Hrp|exact Hg].
 Qed.
+
+(* a lambda list that does not combine &rest with &key is inside the guard with EVERY argument vector *)
+Lemma in_domain_all ds l args : parse_ll ds = Some l -> l_rest l = None \/ l_key l = None -> in_domain ds args = true.
+Proof.
+  intros Hp H. unfold in_domain, guard_l. rewrite Hp. destruct H as [-> | ->]; [reflexivity|destruct (l_rest l); reflexivity].
+Qed.
+Corollary binder_meets_spec_all_args ds l args :
+  parse_ll ds = Some l -> NoDup (params ds) -> rest_plain ds = true -> l_rest l = None \/ l_key l = None ->
+  bind_M ds args = reorder ds (bind_S l args).
+Proof. intros Hp Hnd Hrp H. apply binder_meets_spec_guard; try assumption. eapply in_domain_all; eassumption. Qed.
 
 Lemma arg_eqb_refl a : arg_eqb a a = true.
 Proof. destruct a; cbn; [apply Z.eqb_refl|apply N.eqb_refl|reflexivity]. Qed.
@@ -620,28 +723,46 @@ Qed.
 Corollary binder_meets_spec_eqv ds l args :
   parse_ll ds = Some l -> NoDup (params ds) -> rest_plain ds = true -> in_domain ds args = true ->
   outcome_eqv (reorder ds (bind_S l args)) (bind_M ds args) = true.
-Proof.
-  intros Hp Hnd Hrp Hg. destruct (binder_meets_spec_guard ds l args Hp Hnd Hrp Hg) as [-> | (-> & -> & _)]; [apply outcome_eqv_refl|reflexivity].
-Qed.
+Proof. intros Hp Hnd Hrp Hg. rewrite (binder_meets_spec_guard ds l args Hp Hnd Hrp Hg). apply outcome_eqv_refl. Qed.
 
-(* without &key the outcomes are equal *)
-Lemma in_domain_len ds l args : parse_ll ds = Some l -> in_domain ds args = true -> (length (l_req l) <= length args)%nat.
+(* ---------- rejections, in property terms ---------- *)
+(* too few arguments: rejected, whatever the lambda list (C04-8) *)
+Corollary too_few_rejected ds l args :
+  parse_ll ds = Some l -> NoDup (params ds) -> rest_plain ds = true ->
+  (length args < length (l_req l))%nat -> bind_M ds args = OErr KTooFew.
 Proof.
-  intros Hp Hg. unfold in_domain in Hg. rewrite Hp in Hg. unfold guard_l in Hg. rewrite !andb_true_iff in Hg.
-  apply Nat.leb_le. tauto.
+  intros Hp Hnd Hrp Hs.
+  assert (Hg : in_domain ds args = true).
+  { unfold in_domain, guard_l. rewrite Hp. destruct (l_rest l), (l_key l); try reflexivity. apply Nat.leb_le. lia. }
+  rewrite (binder_meets_spec_guard ds l args Hp Hnd Hrp Hg), bind_S_short by exact Hs. reflexivity.
 Qed.
-Corollary binder_meets_spec_rest ds l args :
-  parse_ll ds = Some l -> NoDup (params ds) -> rest_plain ds = true -> in_domain ds args = true -> l_key l = None ->
-  bind_M ds args = reorder ds (bind_S l args).
+(* too many arguments: rejected when the lambda list has neither &rest nor &key *)
+Corollary too_many_rejected ds l args :
+  parse_ll ds = Some l -> NoDup (params ds) -> rest_plain ds = true -> l_rest l = None -> l_key l = None ->
+  (length (l_req l) + length (l_opt l) < length args)%nat -> bind_M ds args = OErr KTooMany.
 Proof.
-  intros Hp Hnd Hrp Hg Hk. destruct (binder_meets_spec_guard ds l args Hp Hnd Hrp Hg) as [E | (_ & _ & E & _)]; [exact E|congruence].
+  intros Hp Hnd Hrp Hr Hk Hs.
+  rewrite (binder_meets_spec_all_args ds l args Hp Hnd Hrp (or_introl Hr)).
+  rewrite bind_S_sections by lia. rewrite Hk, Hr. unfold a2of.
+  destruct (skipn (length (l_req l) + length (l_opt l)) args) eqn:E; [|reflexivity].
+  apply (f_equal (@length arg)) in E. rewrite skipn_length in E. cbn in E. lia.
 Qed.
-(* with at least one &key parameter the outcomes are equal *)
-Corollary binder_meets_spec_key ds l args k ks :
-  parse_ll ds = Some l -> NoDup (params ds) -> rest_plain ds = true -> in_domain ds args = true -> l_key l = Some (k :: ks) ->
-  bind_M ds args = reorder ds (bind_S l args).
+(* a keyword argument that names no &key parameter is rejected unless other keys are allowed (C04-7), and so
+   are key arguments that are not keyword/value pairs *)
+Corollary bad_keys_rejected ds l args ks :
+  parse_ll ds = Some l -> NoDup (params ds) -> rest_plain ds = true -> l_rest l = None -> l_key l = Some ks ->
+  (length (l_req l) <= length args)%nat ->
+  match key_pairs (S (length (a2of l args))) (a2of l args) with
+  | None => True
+  | Some ps => keys_allowed l ps = false /\ forallb (fun p => key_known ks (fst p)) ps = false
+  end ->
+  bind_M ds args = OErr KBadKey.
 Proof.
-  intros Hp Hnd Hrp Hg Hk. destruct (binder_meets_spec_guard ds l args Hp Hnd Hrp Hg) as [E | (_ & _ & E & _)]; [exact E|congruence].
+  intros Hp Hnd Hrp Hr Hk Hlen H.
+  rewrite (binder_meets_spec_all_args ds l args Hp Hnd Hrp (or_introl Hr)).
+  rewrite bind_S_sections by exact Hlen. rewrite Hk.
+  destruct (key_pairs (S (length (a2of l args))) (a2of l args)) as [ps|]; [|reflexivity].
+  destruct H as [-> ->]. reflexivity.
 Qed.
 
 (* ---------- what the bound parameters hold, in property terms ---------- *)
@@ -650,101 +771,109 @@ Lemma reorder_specl_ds ds l ps args : parse_ll ds = Some l -> NoDup (params ds) 
 Proof.
   intros Hp Hnd Hlen. destruct (parse_shape ds l Hp) as (h & -> & ->). apply reorder_specl; [rewrite <- params_build; exact Hnd|exact Hlen].
 Qed.
-
-Lemma bound_rest ds l args r :
-  parse_ll ds = Some l -> NoDup (params ds) -> rest_plain ds = true -> in_domain ds args = true ->
-  l_key l = None -> l_rest l = Some r -> bind_M ds args = OBound (specl l [] args).
-Proof.
-  intros Hp Hnd Hrp Hg Hk Hr. pose proof (in_domain_len ds l args Hp Hg) as Hlen.
-  rewrite (binder_meets_spec_rest ds l args Hp Hnd Hrp Hg Hk), (bind_S_sections l args Hlen), Hk, Hr.
-  apply reorder_specl_ds; assumption.
-Qed.
-Lemma bound_key ds l args ks ps :
-  parse_ll ds = Some l -> NoDup (params ds) -> rest_plain ds = true -> in_domain ds args = true ->
-  l_key l = Some ks -> key_pairs (S (length (skipn (length (l_req l) + length (l_opt l)) args))) (skipn (length (l_req l) + length (l_opt l)) args) = Some ps ->
-  bind_M ds args = OBound (specl l ps args) /\ NoDup (map fst ps) /\ (forall k, In k (map fst ps) -> In k (map fst ks)).
-Proof.
-  intros Hp Hnd Hrp Hg Hk Hkp. pose proof (in_domain_len ds l args Hp Hg) as Hlen.
-  assert (Hkn : forallb (fun p => existsb (fun kd => N.eqb (fst kd) (fst p)) ks) ps && no_dup_keys ps = true).
-  { unfold in_domain in Hg. rewrite Hp in Hg. unfold guard_l in Hg. rewrite Hk in Hg. cbv zeta in Hg. rewrite Hkp in Hg.
-    apply andb_true_iff in Hg as [_ Hg]. exact Hg. }
-  apply andb_true_iff in Hkn as [Hkn Hndk].
-  assert (HS : bind_S l args = OBound (specl l ps args)).
-  { rewrite (bind_S_sections l args Hlen), Hk. fold (a2of l args) in Hkp. rewrite Hkp, Hkn. cbn [negb]. rewrite andb_false_r. reflexivity. }
-  split; [|split; [apply no_dup_keys_NoDup; exact Hndk|apply known_keys_in; exact Hkn]].
-  destruct (binder_meets_spec_guard ds l args Hp Hnd Hrp Hg) as [E | (_ & E & _)]; [|congruence].
-  rewrite E, HS. apply reorder_specl_ds; assumption.
-Qed.
-
 Lemma specl_nodup ds l ps args : parse_ll ds = Some l -> NoDup (params ds) -> (length (l_req l) <= length args)%nat ->
   NoDup (map fst (specl l ps args)).
 Proof.
   intros Hp Hnd Hlen. rewrite specl_keys by exact Hlen. destruct (parse_shape ds l Hp) as (h & -> & ->). rewrite <- params_build. exact Hnd.
 Qed.
 
-(* &rest without &key: the rest parameter holds all the arguments after the positional ones, in order *)
-Corollary rest_collects ds l args r :
-  parse_ll ds = Some l -> NoDup (params ds) -> rest_plain ds = true -> in_domain ds args = true ->
-  l_key l = None -> l_rest l = Some r ->
-  exists b, bind_M ds args = OBound b /\
-            lookup b r = Some (match skipn (length (l_req l) + length (l_opt l)) args with [] => VNil | rem => VList rem end).
+Lemma bound_rest ds l args r :
+  parse_ll ds = Some l -> NoDup (params ds) -> rest_plain ds = true -> (length (l_req l) <= length args)%nat ->
+  l_key l = None -> l_rest l = Some r -> bind_M ds args = OBound (specl l [] args).
 Proof.
-  intros Hp Hnd Hrp Hg Hk Hr. pose proof (in_domain_len ds l args Hp Hg) as Hlen.
-  exists (specl l [] args). split; [eapply bound_rest; eassumption|].
-  apply lookup_in; [eapply specl_nodup; eassumption|]. unfold specl, restl. rewrite Hr. rewrite !in_app_iff. right. right. left.
-  left. unfold a2of. cbn [fst]. destruct (skipn (length (l_req l) + length (l_opt l)) args); reflexivity.
+  intros Hp Hnd Hrp Hlen Hk Hr.
+  rewrite (binder_meets_spec_all_args ds l args Hp Hnd Hrp (or_intror Hk)), (bind_S_sections l args Hlen), Hk, Hr.
+  apply reorder_specl_ds; assumption.
+Qed.
+Lemma bound_key ds l args ks ps :
+  parse_ll ds = Some l -> NoDup (params ds) -> rest_plain ds = true -> in_domain ds args = true -> (length (l_req l) <= length args)%nat ->
+  l_key l = Some ks -> key_pairs (S (length (a2of l args))) (a2of l args) = Some ps ->
+  keys_allowed l ps = true \/ forallb (fun p => key_known ks (fst p)) ps = true ->
+  bind_M ds args = OBound (specl l ps args).
+Proof.
+  intros Hp Hnd Hrp Hg Hlen Hk Hkp Hok.
+  rewrite (binder_meets_spec_guard ds l args Hp Hnd Hrp Hg), (bind_S_sections l args Hlen), Hk, Hkp.
+  assert (E : negb (keys_allowed l ps) && negb (forallb (fun p => key_known ks (fst p)) ps) = false)
+    by (destruct Hok as [-> | ->]; cbn [negb]; [reflexivity|apply andb_false_r]).
+  rewrite E. apply reorder_specl_ds; assumption.
 Qed.
 
-Lemma first_pair_in k v ps : NoDup (map fst ps) -> In (k, v) ps -> first_pair k ps = Some v.
-Proof.
-  induction ps as [|[k' v'] ps IH]; intros Hnd Hin; [destruct Hin|]. cbn in *. inversion Hnd as [|? ? Hni Hnd']; subst.
-  destruct Hin as [E|Hin]; [injection E as -> ->; rewrite N.eqb_refl; reflexivity|].
-  destruct (N.eqb_spec k k') as [->|Hn]; [exfalso; apply Hni; apply in_map_iff; exists (k', v); auto|]. apply IH; assumption.
-Qed.
-
-(* &key: every key parameter holds the value supplied with its keyword, wherever the pair stands among the
-   key arguments, and its default when the keyword is absent *)
-Corollary key_by_name ds l args ks ps k d :
-  parse_ll ds = Some l -> NoDup (params ds) -> rest_plain ds = true -> in_domain ds args = true ->
-  l_key l = Some ks -> key_pairs (S (length (skipn (length (l_req l) + length (l_opt l)) args))) (skipn (length (l_req l) + length (l_opt l)) args) = Some ps ->
-  In (k, d) ks ->
-  exists b, bind_M ds args = OBound b /\
-            (forall v, In (k, v) ps -> lookup b k = Some (arg_val v)) /\
-            (~ In k (map fst ps) -> lookup b k = Some (def_val d)).
-Proof.
-  intros Hp Hnd Hrp Hg Hk Hkp Hin. pose proof (in_domain_len ds l args Hp Hg) as Hlen.
-  destruct (bound_key ds l args ks ps Hp Hnd Hrp Hg Hk Hkp) as (HM & Hndk & _).
-  exists (specl l ps args). split; [exact HM|].
-  assert (HL : lookup (specl l ps args) k = Some (match first_pair k ps with Some v => arg_val v | None => def_val d end)).
-  { apply lookup_in; [eapply specl_nodup; eassumption|]. unfold specl, keysl. rewrite Hk. rewrite !in_app_iff. right. right. right. left.
-    apply in_map_iff. exists (k, d). split; [reflexivity|exact Hin]. }
-  split.
-  - intros v Hv. rewrite HL, (first_pair_in k v ps Hndk Hv). reflexivity.
-  - intros Hni. rewrite HL, (first_pair_notin k ps Hni). reflexivity.
-Qed.
-
-(* ---------- non-vacuity: &rest and &key lambda lists inside the guard ---------- *)
-Lemma guard_examples_rest_key :
-  let ds_r := [D 0; Mk POptional; {| d_name := PVar 1; d_def := Some 7%Z |}; Mk PRest; D 2; Mk PAux; {| d_name := PVar 3; d_def := Some 9%Z |}] in
-  let ds_k := [D 0; Mk PKey; {| d_name := PVar 1; d_def := Some 5%Z |}; D 2; Mk PAux; {| d_name := PVar 3; d_def := Some 9%Z |}] in
-  in_domain ds_r [AInt 1%Z; AInt 2%Z; AKw 8; AInt 4%Z] = true /\ NoDup (params ds_r) /\ rest_plain ds_r = true /\
-  bind_M ds_r [AInt 1%Z; AInt 2%Z; AKw 8; AInt 4%Z] = OBound [(0, VInt 1); (1, VInt 2); (2, VList [AKw 8; AInt 4%Z]); (3, VInt 9)] /\
-  bind_M ds_r [AInt 1%Z] = OBound [(0, VInt 1); (1, VInt 7); (2, VNil); (3, VInt 9)] /\
-  in_domain ds_k [AInt 1%Z; AKw 2; AInt 8%Z; AKw 1; ANil] = true /\ NoDup (params ds_k) /\ rest_plain ds_k = true /\
-  bind_M ds_k [AInt 1%Z; AKw 2; AInt 8%Z; AKw 1; ANil] = OBound [(0, VInt 1); (1, VNil); (2, VInt 8); (3, VInt 9)] /\
-  in_domain ds_k [AInt 1%Z; AInt 2%Z] = true /\ bind_M ds_k [AInt 1%Z; AInt 2%Z] = OErr KBadKey /\
-  (* the corner where only the kind of rejection differs *)
-  in_domain [Mk PKey] [AInt 1%Z] = true /\ bind_M [Mk PKey] [AInt 1%Z] = OErr KTooMany /\ spec_of [Mk PKey] [AInt 1%Z] = Some (OErr KBadKey).
-Proof.
-  cbv zeta. repeat split; try (vm_compute; reflexivity); cbn [params flat_map D Mk d_name app]; repeat constructor; cbn; intuition discriminate.
-Qed.
-
+(* &rest without &key: the rest parameter holds all the arguments after the positional ones, in order - also
+   keywords, also keywords spelled like an &aux parameter (C04-4) *)
 Corollary rest_collects_in_order ds l args r :
-  parse_ll ds = Some l -> NoDup (params ds) -> rest_plain ds = true -> in_domain ds args = true ->
+  parse_ll ds = Some l -> NoDup (params ds) -> rest_plain ds = true -> (length (l_req l) <= length args)%nat ->
   l_key l = None -> l_rest l = Some r ->
   bind_M ds args = reorder ds (bind_S l args) /\
   exists b, bind_M ds args = OBound b /\
             lookup b r = Some (match skipn (length (l_req l) + length (l_opt l)) args with [] => VNil | rem => VList rem end).
 Proof.
-  intros Hp Hnd Hrp Hg Hk Hr. split; [apply binder_meets_spec_rest; assumption|apply rest_collects; assumption].
+  intros Hp Hnd Hrp Hlen Hk Hr. split; [apply binder_meets_spec_all_args; auto|].
+  exists (specl l [] args). split; [eapply bound_rest; eassumption|].
+  apply lookup_in; [eapply specl_nodup; eassumption|]. unfold specl, restl. rewrite Hr. rewrite !in_app_iff. right. right. left.
+  left. unfold a2of. cbn [fst]. destruct (skipn (length (l_req l) + length (l_opt l)) args); reflexivity.
+Qed.
+
+Lemma first_pair_notin k ps : ~ In k (map fst ps) -> first_pair k ps = None.
+Proof.
+  induction ps as [|[k' v] ps IH]; intros H; [reflexivity|]. cbn in *. destruct (N.eqb_spec k k') as [->|Hn]; [exfalso; apply H; left; reflexivity|].
+  apply IH. intros Hi. apply H. right. exact Hi.
+Qed.
+
+(* &key: when the remaining arguments are acceptable keyword/value pairs, every key parameter holds the value
+   of the FIRST pair with its keyword, wherever that pair stands among the key arguments (C04-6), and its
+   default when its keyword is absent; no other parameter is touched by a keyword (C04-5) *)
+Corollary key_by_name ds l args ks ps k d :
+  parse_ll ds = Some l -> NoDup (params ds) -> rest_plain ds = true -> in_domain ds args = true -> (length (l_req l) <= length args)%nat ->
+  l_key l = Some ks -> key_pairs (S (length (a2of l args))) (a2of l args) = Some ps ->
+  keys_allowed l ps = true \/ forallb (fun p => key_known ks (fst p)) ps = true ->
+  In (k, d) ks ->
+  exists b, bind_M ds args = OBound b /\
+            (forall v, first_pair k ps = Some v -> lookup b k = Some (arg_val v)) /\
+            (~ In k (map fst ps) -> lookup b k = Some (def_val d)).
+Proof.
+  intros Hp Hnd Hrp Hg Hlen Hk Hkp Hok Hin.
+  exists (specl l ps args). split; [eapply bound_key; eassumption|].
+  assert (HL : lookup (specl l ps args) k = Some (match first_pair k ps with Some v => arg_val v | None => def_val d end)).
+  { apply lookup_in; [eapply specl_nodup; eassumption|]. unfold specl, keysl. rewrite Hk. rewrite !in_app_iff. right. right. right. left.
+    apply in_map_iff. exists (k, d). split; [reflexivity|exact Hin]. }
+  split.
+  - intros v Hv. rewrite HL, Hv. reflexivity.
+  - intros Hni. rewrite HL, (first_pair_notin k ps Hni). reflexivity.
+Qed.
+(* ... and a required parameter keeps its positional argument whatever the keyword arguments are *)
+Corollary required_kept ds l args ks ps i x a :
+  parse_ll ds = Some l -> NoDup (params ds) -> rest_plain ds = true -> in_domain ds args = true -> (length (l_req l) <= length args)%nat ->
+  l_key l = Some ks -> key_pairs (S (length (a2of l args))) (a2of l args) = Some ps ->
+  keys_allowed l ps = true \/ forallb (fun p => key_known ks (fst p)) ps = true ->
+  nth_error (l_req l) i = Some x -> nth_error args i = Some a ->
+  exists b, bind_M ds args = OBound b /\ lookup b x = Some (arg_val a).
+Proof.
+  intros Hp Hnd Hrp Hg Hlen Hk Hkp Hok Hx Ha.
+  exists (specl l ps args). split; [eapply bound_key; eassumption|].
+  apply lookup_in; [eapply specl_nodup; eassumption|]. unfold specl. apply in_or_app. left.
+  apply in_map_iff. exists (x, a). split; [reflexivity|].
+  clear - Hx Ha. revert args i Hx Ha. induction (l_req l) as [|y req IH]; intros args i Hx Ha; [destruct i; discriminate|].
+  destruct args as [|b args]; [destruct i; discriminate|]. destruct i as [|i]; cbn in *.
+  - injection Hx as ->. injection Ha as ->. left; reflexivity.
+  - right. eapply IH; eassumption.
+Qed.
+
+(* ---------- non-vacuity: &rest, &key and &allow-other-keys lambda lists inside the guard ---------- *)
+Lemma guard_examples_rest_key :
+  let ds_r := [D 0; Mk POptional; {| d_name := PVar 1; d_def := Some 7%Z |}; Mk PRest; D 2; Mk PAux; {| d_name := PVar 3; d_def := Some 9%Z |}] in
+  let ds_k := [D 0; Mk PKey; {| d_name := PVar 1; d_def := Some 5%Z |}; D 2; Mk PAux; {| d_name := PVar 3; d_def := Some 9%Z |}] in
+  let ds_a := [D 0; Mk PKey; D 1; Mk PAllow] in
+  in_domain ds_r [AInt 1%Z; AInt 2%Z; AKw 3; AInt 4%Z] = true /\ NoDup (params ds_r) /\ rest_plain ds_r = true /\
+  bind_M ds_r [AInt 1%Z; AInt 2%Z; AKw 3; AInt 4%Z] = OBound [(0, VInt 1); (1, VInt 2); (2, VList [AKw 3; AInt 4%Z]); (3, VInt 9)] /\
+  bind_M ds_r [AInt 1%Z] = OBound [(0, VInt 1); (1, VInt 7); (2, VNil); (3, VInt 9)] /\
+  bind_M ds_r [] = OErr KTooFew /\
+  in_domain ds_k [AInt 1%Z; AKw 2; AInt 8%Z; AKw 1; ANil; AKw 2; AInt 6%Z] = true /\ NoDup (params ds_k) /\ rest_plain ds_k = true /\
+  bind_M ds_k [AInt 1%Z; AKw 2; AInt 8%Z; AKw 1; ANil; AKw 2; AInt 6%Z] = OBound [(0, VInt 1); (1, VNil); (2, VInt 8); (3, VInt 9)] /\
+  bind_M ds_k [AInt 1%Z; AInt 2%Z] = OErr KBadKey /\
+  bind_M ds_k [AInt 1%Z; AKw 0; AInt 2%Z] = OErr KBadKey /\
+  bind_M ds_k [AInt 1%Z; AKw 0; AInt 2%Z; AKw allow_kw; AInt 1%Z] = OBound [(0, VInt 1); (1, VInt 5); (2, VNil); (3, VInt 9)] /\
+  bind_M ds_a [AInt 1%Z; AKw 7; AInt 2%Z; AKw 1; AInt 3%Z] = OBound [(0, VInt 1); (1, VInt 3)] /\
+  bind_M [Mk PKey] [AInt 1%Z] = OErr KBadKey /\ bind_M [Mk PKey] [AKw allow_kw; ANil] = OBound [].
+Proof.
+  cbv zeta. repeat split; try (vm_compute; reflexivity); cbn [params flat_map D Mk d_name app]; repeat constructor; cbn; intuition discriminate.
 Qed.
